@@ -52,9 +52,19 @@ var (
 	binPath  string
 )
 
+// scratchDir is removed by every exit path (os.Exit skips deferred calls).
+var scratchDir string
+
+func exitClean(code int) {
+	if scratchDir != "" {
+		os.RemoveAll(scratchDir)
+	}
+	os.Exit(code)
+}
+
 func fatal2(format string, a ...interface{}) {
 	fmt.Fprintf(os.Stderr, "zcheck: "+format+"\n", a...)
-	os.Exit(2)
+	exitClean(2)
 }
 
 func loadKnown(prop string) []KnownFinding {
@@ -229,10 +239,11 @@ func main() {
 		fatal2("%v", err)
 	}
 	defer os.RemoveAll(scratch)
+	scratchDir = scratch
 	os.Setenv("ZSIM_TMP", scratch)
 
 	if prop == "selftest" {
-		os.Exit(selftest(scratch, *tier, seed, *workers))
+		exitClean(selftest(scratch, *tier, seed, *workers))
 	}
 	meta, ok := propMeta[prop]
 	if !ok {
@@ -253,12 +264,12 @@ func main() {
 		fmt.Printf("replay status=%s sig=%s\n%s\n", r.Status, r.Sig, r.Detail)
 		if r.Status == "violation" || r.Status == "crash" {
 			fmt.Printf("VIOLATION property=%s replay=%s\n", prop, *replay)
-			os.Exit(1)
+			exitClean(1)
 		}
 		if r.Status != "ok" {
-			os.Exit(2)
+			exitClean(2)
 		}
-		os.Exit(0)
+		exitClean(0)
 	}
 
 	start := time.Now()
@@ -299,6 +310,7 @@ func main() {
 	var mu sync.Mutex
 	var all []*Result
 	var crashes []uint64
+	crashLogs := map[uint64]string{}
 	var harnessErrs []*Result
 	var wg sync.WaitGroup
 	W := *workers
@@ -355,6 +367,13 @@ func main() {
 					if b, err := os.ReadFile(out + ".cur"); err == nil {
 						if s, err := strconv.ParseUint(strings.TrimSpace(string(b)), 10, 64); err == nil {
 							crashes = append(crashes, s)
+							if lb, err := os.ReadFile(out + ".log"); err == nil {
+								tail := string(lb)
+								if len(tail) > 4000 {
+									tail = tail[len(tail)-4000:]
+								}
+								crashLogs[s] = tail
+							}
 							once.Do(func() { close(foundViolation) })
 						}
 					}
@@ -474,7 +493,7 @@ func main() {
 			exit = 2
 			continue
 		}
-		handle(pf, &Result{Seed: s, Status: "crash", Sig: "crash"})
+		handle(pf, &Result{Seed: s, Status: "crash", Sig: "crash", Detail: "output of the worker that died:\n" + crashLogs[s]})
 	}
 	if len(harnessErrs) > 0 && exit == 0 {
 		for i, h := range harnessErrs {
